@@ -72,7 +72,7 @@ def run_simplify(case):
 
 @st.composite
 def match_cases(draw, tier):
-    syms = draw(st.sampled_from([["a"], ["a", "b"], ["a", "b", "c"], ["0", "1"], ["ab", "a"], ["ab", "ba", "b"]]))
+    syms = draw(st.sampled_from([["a"], ["a", "b"], ["a", "b", "c"], ["0", "1"], ["ab", "a"], ["ab", "ba", "b"], ["a", "_"], ["ε", "b"]]))
     t = draw(GR.trees(syms, max_leaves=8))
     S = sorted(RX.symbols(t)) or ["a"]
     extra = draw(st.sampled_from([[], [], [], ["z"]]))
@@ -82,7 +82,7 @@ def match_cases(draw, tier):
 
 @st.composite
 def simp_cases(draw, tier):
-    syms = draw(st.sampled_from([["a"], ["a", "b"], ["a", "b", "c"], ["0", "1"], ["ab", "a"], ["ab", "ba", "b"]]))
+    syms = draw(st.sampled_from([["a"], ["a", "b"], ["a", "b", "c"], ["0", "1"], ["ab", "a"], ["ab", "ba", "b"], ["a", "_"], ["ε", "b"]]))
     return {"re": draw(GR.trees(syms, max_leaves=12))}
 
 
